@@ -208,7 +208,10 @@ m = {
     "checks": checks,
     "not_applicable": na,
     "notes": "exit 2 from a check means UNDECIDED (lost anchor, unsupported construct, solver limit, vacuity guard) and is never an alarm. "
-             "Known findings and fixed defects: /verif/known_findings.txt.",
+             "When the verifier is undecided on a changed tree, a bounded stand-in search on the real crate (stated bound, labelled bounded in "
+             "evidence.coverage.bounded_stand_ins, never counted as proof) may still report a VIOLATION with a reproduced failing input. "
+             "thorough = quick + all obligations under two more Z3 seeds + the bounded searches. "
+             "Known findings and fixed defects: /verif/known_findings.txt. What is proved and what is not, per property: DESIGN.md section 12.3.",
 }
 json.dump(m, open(os.path.join(VERIF, "MANIFEST.json"), "w"), indent=1)
 print("claimed:", sorted(CLAIMED.keys()))
